@@ -372,6 +372,87 @@ pub fn run_fail_real(ctx: &Ctx, salt: u64, cases: u32) -> (Stats, Vec<drive::Fai
     drive::drive_opts(ctx, salt, cases, 16, || fail_strategy(5), fail_real)
 }
 
+// ---------------------------------------------------------------------------------------------------------------------
+// Real-file-system slice of C05: commands that print a lot (more than a pipe buffer) to stderr and/or stdout.  Only the
+// real System talks to real child processes; a build that waits for its child in the wrong order never returns.
+
+#[derive(Clone, Debug, Serialize, Deserialize, PartialEq)]
+pub struct RealNoiseCase
+{
+    pub graph: GraphSpec,
+    pub rule: u16,
+    /// index into the size table, for stderr and stdout
+    pub err: u8,
+    pub out: u8,
+    pub clean_after: bool,
+}
+
+const NOISE_SIZES: [u32; 5] = [0, 1000, 65537, 200000, 700000];
+
+pub fn noise_strategy() -> impl Strategy<Value = RealNoiseCase>
+{
+    (gen::graph_spec(4, false), any::<u16>(), 0u8..5, 0u8..5, any::<bool>())
+        .prop_map(|(graph, rule, err, out, clean_after)| RealNoiseCase { graph, rule, err, out, clean_after })
+}
+
+pub fn noise_real(c: &RealNoiseCase, stats: &mut Stats) -> Result<(), String>
+{
+    use crate::verif::cmd::Instr;
+    let mut w = RealWorld::new(&c.graph)?;
+    let f = gen::pick(c.rule, w.model.rules.len());
+    let (e, o) = (NOISE_SIZES[c.err as usize % 5], NOISE_SIZES[c.out as usize % 5]);
+    {
+        let r = &mut w.model.rules[f];
+        if r.script.is_empty() { r.script.push(vec![]); }
+        r.script[0].insert(0, Instr::Noise { err: e, out: o });
+    }
+    w.sync_rules()?;
+    // `run` itself reports an invocation that hangs (idle process tree); here: it returned, and did its job
+    let b = w.build(None)?;
+    if b.code != Some(0) { return Err(format!("real fs: `ruler build` ended with status {:?} when a command printed {} bytes to stderr and {} to stdout", b.code, e, o)); }
+    let reference = w.model.eval(None);
+    let snap = w.snapshot();
+    for r in w.model.rules.iter()
+    {
+        for t in r.targets.iter()
+        {
+            if snap.get(t).map(|x| &x.0) != reference.files.get(t).map(|x| &x.0)
+            {
+                return Err(format!("real fs: after a build in which a command printed {} bytes to stderr and {} to stdout, target {} is not what a from-scratch build gives (stderr of ruler: {:?})", e, o, t,
+                    b.stderr.chars().filter(|ch| *ch != 'e').take(300).collect::<String>()));
+            }
+        }
+    }
+    if c.clean_after
+    {
+        let cl = w.clean(None)?;
+        if cl.code != Some(0) { return Err(format!("real fs: clean ended with status {:?}", cl.code)); }
+    }
+    stats.count("realfs_noisy_builds", 1);
+    if e > 65536 || o > 65536 { stats.class("real-output-larger-than-a-pipe-buffer"); stats.nontrivial(drive::key_of(c) ^ 0x5015E); }
+    if e > 65536 && o > 0 { stats.class("real-big-stderr-with-stdout"); }
+    Ok(())
+}
+
+pub fn run_c05(ctx: &Ctx) -> drive::Report
+{
+    let mut rep = crate::verif::props::schedp::run_c05(ctx);
+    let mut real = drive::drive_opts(ctx, 105, ctx.tier.pick(20, 200), 16, noise_strategy, noise_real);
+    for f in real.1.iter_mut() { f.case = serde_json::json!({ "real_fs_noise": f.case }); }
+    rep.absorb(real);
+    rep
+}
+
+pub fn replay_c05(ctx: &Ctx, case: &serde_json::Value) -> Result<(), String>
+{
+    if let Some(inner) = case.get("real_fs_noise")
+    {
+        let c: RealNoiseCase = drive::parse_case(inner)?;
+        return noise_real(&c, &mut Stats::default());
+    }
+    crate::verif::props::schedp::replay_c05(ctx, case)
+}
+
 pub fn run_c03(ctx: &Ctx) -> drive::Report
 {
     // real-fs slice of C03: a producer whose command was killed has not "completely built" its targets, so no command that
